@@ -197,6 +197,10 @@ func Drive(c *Check, tier string, seed int64, nworkers int, only string) int {
 				engineErrs = append(engineErrs, fmt.Sprintf("worker %d failed without journal: %v\n%s", i, o.err, o.stderr))
 				continue
 			}
+			if phaseIsLongEval(c, ph) {
+				engineErrs = append(engineErrs, fmt.Sprintf("worker %d did not finish phase %s (an exploration phase: no verdict about the implementation is drawn from that): %v\n%s", i, ph, o.err, o.stderr))
+				continue
+			}
 			kind, detail, confirmed := confirmCrash(self, c, tier, ph, in, aux)
 			if !confirmed && (o.killed || strings.Contains(o.stderr, "fatal error") || strings.Contains(o.stderr, "deadlock")) {
 				// the case alone is fine: the failure depends on the calls made before it in this process.
@@ -506,7 +510,7 @@ func writeReplay(v Violation) string {
 	}
 	r := replay{Violation: v,
 		HowTo:    "cd /verif && bin/check " + v.Property + " replay " + path,
-		UnitTest: fmt.Sprintf("// plain replay without the explorer (property %s, phase %s)\nfunc TestReplay(t *testing.T) {\n\tinput := %q\n\t_ = input // %s\n}\n", v.Property, v.Phase, hexToStr(v.InputHex), strings.ReplaceAll(v.Detail, "\n", " ")),
+		UnitTest: unitTestFor(v),
 	}
 	b, _ := json.MarshalIndent(r, "", " ")
 	os.WriteFile(path, b, 0o644)
@@ -690,4 +694,46 @@ func rerunShard(self string, c *Check, tier, phase, haux string, budget time.Dur
 		return "", "", "", false
 	}
 	return p, i, what, true
+}
+
+var htmlProps = map[string]bool{"C02": true, "C04": true, "C07": true, "C11": true, "C13": true, "C15": true, "C17": true, "C19": true}
+
+// unitTestFor renders a plain Go test (package libinjection, no explorer) that replays the case.
+func unitTestFor(v Violation) string {
+	in := hexToStr(v.InputHex)
+	name := "TestReplay_" + v.Property + "_" + sanitize(v.Phase)
+	call, show := "b, fp := IsSQLi(input)", "t.Logf(\"IsSQLi(%q) = (%v, %q)\", input, b, fp)"
+	verdict := "b"
+	if htmlProps[v.Property] {
+		call, show = "b := IsXSS(input)", "t.Logf(\"IsXSS(%q) = %v\", input, b)"
+	}
+	var body string
+	switch v.Kind {
+	case "panic", "fatal", "hang", "no-termination-within-budget", "recursion-depth", "fails-after-history":
+		body = "\tdefer func() {\n\t\tif r := recover(); r != nil {\n\t\t\tt.Fatalf(\"panicked: %v\", r)\n\t\t}\n\t}()\n\tdone := make(chan struct{})\n\tgo func() { defer close(done); " + strings.Replace(call, ":=", "=", 1) + " }()\n"
+		body = "\tvar b bool\n\tvar fp string\n\t_, _ = b, fp\n" + body + "\tselect {\n\tcase <-done:\n\tcase <-time.After(30 * time.Second):\n\t\tt.Fatal(\"did not return within 30 s\")\n\t}\n"
+		if htmlProps[v.Property] {
+			body = strings.Replace(body, "\tvar fp string\n\t_, _ = b, fp\n", "\t_ = b\n", 1)
+		}
+	case "missed", "xss-missed", "scheme-missed":
+		body = "\t" + call + "\n\t" + show + "\n\tif !" + verdict + " {\n\t\tt.Fatal(\"canonical attack not reported\")\n\t}\n"
+	case "false-positive":
+		body = "\t" + call + "\n\t" + show + "\n\tif " + verdict + " {\n\t\tt.Fatal(\"benign input reported\")\n\t}\n"
+	default:
+		body = "\t" + call + "\n\t" + show + "\n\t// the check compared this with: " + strings.ReplaceAll(v.Detail, "\n", " ") + "\n\t// (the full oracle needs the accessor in verif_hooks.go: bin/check " + v.Property + " replay <this file>)\n"
+	}
+	imports := "import \"testing\"\n"
+	if strings.Contains(body, "time.After") {
+		imports = "import (\n\t\"testing\"\n\t\"time\"\n)\n"
+	}
+	return fmt.Sprintf("// plain replay without the explorer: property %s, phase %s, kind %s (aux %q)\npackage libinjection\n\n%s\nfunc %s(t *testing.T) {\n\tinput := %q\n%s}\n", v.Property, v.Phase, v.Kind, v.Aux, imports, name, in, body)
+}
+
+func phaseIsLongEval(c *Check, name string) bool {
+	for _, p := range c.Phases {
+		if p.Name == name {
+			return p.LongEval
+		}
+	}
+	return false
 }
